@@ -39,7 +39,7 @@ def call(ip, name, args, kw):
         shp = _shape(args[0] if args else kw["shape"])
         return obj_array(shp, 1 if name == "ones" else 0)
     if name in ("zeros_like", "empty_like", "ones_like"):
-        a = to_obj_array(args[0])
+        a = args[0] if isinstance(args[0], np.ndarray) else to_obj_array(args[0])
         return obj_array(a.shape, 1 if name == "ones_like" else 0)
     if name == "full":
         shp = _shape(args[0])
@@ -163,6 +163,8 @@ def call(ip, name, args, kw):
         a = to_obj_array(args[0]).ravel()
         f = sp.Max if "max" in name else sp.Min
         return f(*list(a))
+    if name == "clip" and isinstance(args[0], np.ndarray) and args[0].dtype != object:
+        return np.clip(args[0], as_int(args[1]), as_int(args[2]))
     if name == "clip":
         a, lo, hi = args[0], args[1], args[2]
         return vmap(lambda x: sp.Min(sp.Max(x, S(lo)), S(hi)), a if isinstance(a, np.ndarray) else S(a))
@@ -219,6 +221,8 @@ def call(ip, name, args, kw):
         if name == "isfinite" and not isinstance(args[0], np.ndarray) and S(args[0]).is_number:
             return bool(S(args[0]).is_finite)
         return sp.Function(name)(*[S(a) for a in args if not isinstance(a, (np.ndarray, list, tuple))])
+    if name == "isscalar":
+        return not isinstance(args[0], (np.ndarray, list, tuple))
     if name == "all" or name == "any":
         if isinstance(args[0], np.ndarray) and args[0].dtype == bool:
             return bool(args[0].all()) if name == "all" else bool(args[0].any())
@@ -233,6 +237,43 @@ def call(ip, name, args, kw):
         from .kpe import SymObj
         return SymObj(None, {"eps": sp.Rational(1, 2 ** 52), "tiny": sp.Rational(1, 2 ** 1022), "max": sp.oo,
                              "resolution": sp.Rational(1, 10 ** 15)}, "finfo")
+    if name == "searchsorted":
+        a = to_obj_array(args[0]).ravel()
+        v = args[1]
+        side = kw.get("side", args[2] if len(args) > 2 else "left")
+        def pos(x):
+            cnt = 0
+            for e in a:
+                rel = sp.Le(S(e), S(x)) if side == "right" else sp.Lt(S(e), S(x))
+                tv = ip.truth(rel)
+                if tv is None:
+                    raise OutsideFragment(f"np.searchsorted: order of {e} and {x} is data-dependent")
+                if tv:
+                    cnt += 1
+            return cnt
+        if isinstance(v, np.ndarray):
+            return np.array([pos(x) for x in v.ravel()]).reshape(v.shape)
+        return pos(v)
+    if name == "nonzero":
+        a = args[0]
+        if isinstance(a, np.ndarray) and a.dtype != object:
+            return tuple(np.nonzero(a))
+        a = to_obj_array(a)
+        flags = []
+        for x in a.ravel():
+            tv = ip.truth(x)
+            if tv is None:
+                raise OutsideFragment(f"np.nonzero on a data-dependent mask element: {x}")
+            flags.append(tv)
+        return tuple(np.nonzero(np.array(flags, dtype=bool).reshape(a.shape)))
+    if name == "argsort":
+        a = args[0]
+        vals = [as_int(x) for x in (a.ravel() if isinstance(a, np.ndarray) else a)]
+        return np.argsort(np.array(vals), kind="stable")
+    if name == "ndim":
+        return to_obj_array(args[0]).ndim if isinstance(args[0], (np.ndarray, list, tuple)) else 0
+    if name == "fromiter":
+        return to_obj_array(list(args[0]))
     if name == "trace":
         a = to_obj_array(args[0])
         return sum((a[i, i] for i in range(min(a.shape))), sp.Integer(0))
